@@ -492,6 +492,12 @@ def _single_defs(fn) -> dict:
         if isinstance(x, ast.Assign) and len(x.targets) == 1 and isinstance(x.targets[0], ast.Name):
             cnt[x.targets[0].id] = cnt.get(x.targets[0].id, 0) + 1
             out[x.targets[0].id] = x.value
+        elif isinstance(x, ast.Assign) and len(x.targets) == 1 and isinstance(x.targets[0], (ast.Tuple, ast.List)) and isinstance(x.value, (ast.Tuple, ast.List)) and len(x.targets[0].elts) == len(x.value.elts):
+            # lower, upper = edges[:-1], edges[1:]
+            for t_, v_ in zip(x.targets[0].elts, x.value.elts):
+                if isinstance(t_, ast.Name) and not isinstance(v_, ast.Starred):
+                    cnt[t_.id] = cnt.get(t_.id, 0) + 1
+                    out[t_.id] = v_
     return {k: v for k, v in out.items() if cnt[k] == 1}
 
 
